@@ -8,6 +8,8 @@ use crate::html;
 pub struct BodyAppend {
     element_tree: Vec<String>,
     position: usize,
+    // Inside the last element of the tree, not only looking for it
+    is_inside: bool,
     css_selector: Option<String>,
     content: String,
     inner_content: String,
@@ -28,6 +30,7 @@ impl BodyAppend {
             element_tree,
             css_selector,
             position: 0,
+            is_inside: false,
             content,
             inner_content,
             id,
@@ -48,6 +51,8 @@ impl BodyAppend {
             return (next_enter, next_leave, false, data);
         }
 
+        self.is_inside = true;
+
         let should_buffer =
             self.position + 1 >= self.element_tree.len() && self.css_selector.is_some() && !self.css_selector.as_ref().unwrap().is_empty();
 
@@ -56,7 +61,10 @@ impl BodyAppend {
 
     pub fn leave(&mut self, data: String, unit_trace: Option<&mut UnitTrace>) -> Result<(Option<String>, Option<String>, String)> {
         let next_enter = Some(self.element_tree[self.position].clone());
-        let is_processing = self.position + 1 >= self.element_tree.len();
+        // The end tag of a parent whose last element never came (no <head> in <html>) is not the place to append
+        let is_processing = self.is_inside && self.position + 1 >= self.element_tree.len();
+
+        self.is_inside = false;
         let next_leave = if self.position as i32 > 0 {
             self.position -= 1;
 
